@@ -50,7 +50,7 @@ def optimal_sets(program):
     models = []
 
     def on_model(m):
-        if m.optimality_proven:
+        if m.optimality_proven or len(m.cost) == 0:      # no ground weak constraint: every answer set is optimal
             models.append((frozenset(str(a) for a in m.symbols(atoms=True)), tuple(m.cost)))
     ctl.solve(on_model=on_model)
     return models
